@@ -81,8 +81,8 @@ Definition parse_link (h : str) : plink :=
 
 Definition eff_limit (n : Z) : Z := if (n <=? 0)%Z then defaultMaxMetadataBytes else n.
 
-(* what io.LimitReader lets through of a body of [total] bytes *)
-Definition max_read (limit : Z) (total : N) : N := N.min (Z.to_N (eff_limit limit)) total.
+(* io.LimitReader: the prefix of the body that a reader behind the limit can ever obtain *)
+Definition seen (limit : Z) (body : str) : str := firstn (Z.to_nat (eff_limit limit)) body.
 
 (* limitSize: true = rejected *)
 Definition limit_size_rejects (limit : Z) (size : Z) : bool := (eff_limit limit <? size)%Z.
